@@ -45,6 +45,7 @@ package main
 import (
 	"context"
 	"encoding/json"
+	"errors"
 	"fmt"
 	"math"
 	"os"
@@ -83,6 +84,7 @@ type stepT struct {
 	Lo      int64        `json:"lo"`
 	Hi      int64        `json:"hi"`
 	Blocked bool         `json:"blocked"`
+	Closing bool         `json:"closing"` // WriteFinish: a Shard.Close is waiting for this write
 	Exp     expT         `json:"exp"`
 	// C38 (backup.go): Backup(since) / Export(lo, hi) records of TSMEngineBackup.tla
 	Since   int64           `json:"since"`
@@ -438,8 +440,18 @@ func kindOf(name string) string {
 		return "del"
 	case strings.HasPrefix(name, "write."):
 		return "write"
+	case name == "shard.write.before_engine":
+		return "wenter"
 	}
 	return ""
+}
+
+// shardHook is installed with tsdb.VerifSetHook: of the tsdb schedule points only the one between a write's field validation
+// and its engine write is a park point here (C39 close race); the field-set points belong to harness/cmd/fieldset.
+func shardHook(name string) {
+	if name == "shard.write.before_engine" {
+		hook(name)
+	}
 }
 
 // hook is installed with tsm1.VerifSetHook; it runs on the goroutine that reached the schedule point.
@@ -551,11 +563,16 @@ type runner struct {
 	comp  *job
 	del   *job
 	write *job
-	snaps []snapRec
-	dels  []delRec
-	evals int
-	drift map[string]bool
-	sig   map[string]bool
+	// C39 close race: a write parked before Engine.WritePoints, and the Shard.Close that was called meanwhile
+	wenter    *job
+	closeDone chan error
+	abandon   bool
+	shClosed  bool // the pending Close has completed (the series file is closed with it); Reopen only opens
+	snaps     []snapRec
+	dels      []delRec
+	evals     int
+	drift     map[string]bool
+	sig       map[string]bool
 	// values written so far per (key, time), from the behaviour's Write records
 	written map[[2]int64][]int64
 }
@@ -1015,10 +1032,50 @@ func (r *runner) step(i int, s *stepT) *rt.Result {
 			}
 			r.sig["delete"] = true
 		}
-	case "Reopen":
-		if err := r.env.close(); err != nil {
-			return infra("close: " + err.Error())
+	case "WriteEnter":
+		pts, err := r.batch(s.Pts)
+		if err != nil {
+			return infra(err.Error())
 		}
+		r.wenter = startJob("wenter", "shard.write.before_engine", func() error { return r.env.sh.WritePoints(context.Background(), pts) })
+		if err := r.wenter.wait(); err != nil {
+			return hang(err)
+		}
+		if r.wenter.finished {
+			return infra(fmt.Sprintf("WritePoints ended before reaching shard.write.before_engine (err=%v)", r.wenter.err))
+		}
+	case "CloseTry":
+		// Shard.Close while the write stands between its field validation and its engine write: it must wait for the write
+		r.closeDone = make(chan error, 1)
+		sh := r.env.sh
+		go func(ch chan error) { ch <- sh.Close() }(r.closeDone)
+		select {
+		case err := <-r.closeDone:
+			r.abandon = true // the shard is closed under the parked write: it stays parked, nothing is finished or read
+			return fail(fmt.Sprintf("Shard.Close returned (err=%v) while a write was in flight between its field validation and "+
+				"Engine.WritePoints: Close does not exclude a half-applied write", err))
+		case <-time.After(closeRaceWait):
+		}
+		r.sig["close-waits-for-write"] = true
+	case "WriteFinish":
+		if err := r.wenter.advance(); err != nil {
+			return hang(err)
+		}
+		if r.wenter.err != nil {
+			return fail("WritePoints (in flight when Shard.Close was called) returned " + r.wenter.err.Error())
+		}
+		if s.Closing {
+			if res := r.settleClose(); res != "" {
+				return hang(errors.New(res))
+			}
+		}
+	case "Reopen":
+		if !r.shClosed {
+			if err := r.env.close(); err != nil {
+				return infra("close: " + err.Error())
+			}
+		}
+		r.shClosed = false
 		if err := r.env.open(); err != nil {
 			return fail("reopen failed: " + err.Error())
 		}
@@ -1029,13 +1086,35 @@ func (r *runner) step(i int, s *stepT) *rt.Result {
 	return nil
 }
 
+var closeRaceWait = 250 * time.Millisecond
+
+// settleClose waits for the Shard.Close that CloseTry started (the write it waited for has returned) and closes the series file.
+func (r *runner) settleClose() string {
+	if r.closeDone == nil {
+		return ""
+	}
+	select {
+	case err := <-r.closeDone:
+		r.closeDone = nil
+		r.shClosed = true
+		r.env.sfile.Close()
+		if err != nil {
+			return "the Shard.Close that waited for the write returned " + err.Error()
+		}
+		return ""
+	case <-time.After(stepTimeout):
+		hung = true
+		return "Shard.Close did not return after the write it waited for was acknowledged"
+	}
+}
+
 // finishJobs lets every parked goroutine run to its end (compaction first: a delete may be waiting for it; then the
 // snapshot: it may hold Engine.mu, which the write's and the delete's return need). It reports whether any job was
 // still in flight.
 func (r *runner) finishJobs() (bool, error) {
 	inflight := false
 	var first error
-	for _, j := range []*job{r.comp, r.snap, r.write, r.del} {
+	for _, j := range []*job{r.comp, r.snap, r.write, r.wenter, r.del} {
 		if j != nil && !j.finished {
 			inflight = true
 			if err := j.advance(); err != nil && first == nil {
@@ -1102,6 +1181,7 @@ func runCase(raw json.RawMessage, env *rt.Env) rt.Result {
 		return runBackupCase(&c, raw, env)
 	}
 	tsm1.VerifSetHook(hook)
+	tsdb.VerifSetHook(shardHook)
 	root, err := os.MkdirTemp(env.Scratch, "eng")
 	if err != nil {
 		return rt.Infra(err.Error())
@@ -1114,7 +1194,7 @@ func runCase(raw json.RawMessage, env *rt.Env) rt.Result {
 	}
 	closed := false
 	defer func() {
-		if !closed && !hung {
+		if !closed && !hung && !r.abandon {
 			r.finishJobs()
 			r.env.close()
 		}
@@ -1149,6 +1229,9 @@ func runCase(raw json.RawMessage, env *rt.Env) rt.Result {
 			res.Evals = r.evals
 			return *res
 		}
+		if r.closeDone != nil || r.shClosed {
+			continue // a Close is waiting on Shard.mu (readers queue behind it) or has completed: nothing can be read
+		}
 		if res := r.checkReads(i, s); res != nil {
 			res.Evals = r.evals
 			for d := range r.drift {
@@ -1170,6 +1253,26 @@ func runCase(raw json.RawMessage, env *rt.Env) rt.Result {
 	inflight, err := r.finishJobs()
 	if err != nil {
 		return rt.Result{OK: false, Kind: "hang", Step: n, Msg: "epilogue (finishing the jobs in flight): " + err.Error(), Evals: r.evals}
+	}
+	if r.wenter != nil && r.wenter.err != nil {
+		return rt.Fail(n, "epilogue: WritePoints (in flight when Shard.Close was called) returned "+r.wenter.err.Error(), nil, nil)
+	}
+	if msg := r.settleClose(); msg != "" {
+		return rt.Result{OK: false, Kind: "hang", Step: n, Msg: "epilogue: " + msg, Evals: r.evals}
+	}
+	if r.shClosed {
+		// the history ended with the Close still pending / just completed: open again and judge the final state
+		r.shClosed = false
+		inflight = false
+		last = &stepT{A: "Reopen"}
+		if err := r.env.open(); err != nil {
+			closed = true
+			return rt.Fail(n, "epilogue: reopen after the pending close failed: "+err.Error(), nil, nil)
+		}
+		if res := r.checkReads(n, &stepT{A: "epilogue: pending close completed, reopen", Exp: fin}); res != nil {
+			res.Evals = r.evals
+			return *res
+		}
 	}
 	if inflight {
 		if res := r.checkReads(n, &stepT{A: "epilogue: jobs in flight run to their end", Exp: fin}); res != nil {
